@@ -346,7 +346,8 @@ def eval_stage(ev, prop, universe, checks, tier, seed, timeout=1500, label=None,
     ev.traces += summary["cases"]
     ev.evaluations += summary["cases"]
     ev.distinct_nontrivial += summary["nonempty_expect"]
-    ev.extra.setdefault("per_check_cases", {}).update(summary.get("checks", {}))
+    _acc(ev, summary)
+    ev.extra.setdefault("feature_counts", {})[label or f"Evaluator[{universe}]"] = feature_counts(cases)
     # samples
     with open(cases) as f:
         for i, line in enumerate(f):
@@ -355,6 +356,40 @@ def eval_stage(ev, prop, universe, checks, tier, seed, timeout=1500, label=None,
                 ev.samples.append({"query": "".join(map(chr, c["q"])), "doc": sval_to_json(c["doc"]),
                                    "spec_nodelist": [loc_disp(l) for l in c["expect"]]})
     return mism, cases
+
+
+_FEATURES = [("descendant", r"\.\."), ("wildcard", r"\*"), ("filter", r"\?"), ("union", r"\[[^\]\[]*,"), ("slice", r"\[[^\]'\"]*:"),
+             ("negative_index", r"\[-\d+\]"), ("name", r"\['"), ("and", r"&&"), ("or", r"\|\|"), ("not", r"!(?!=)"), ("paren", r"\("),
+             ("eq", r"=="), ("ne", r"!="), ("lt", r"<(?!=)"), ("le", r"<="), ("gt", r">(?!=)"), ("ge", r">="), ("root_in_filter", r"\?.*\$"),
+             ("length", r"length\("), ("count", r"count\("), ("value", r"value\("), ("match", r"match\("), ("search", r"search\("),
+             ("nested_filter", r"\?[^\]]*\?"), ("blank", r"[ \t\n\r]"), ("escape", r"\\\\"), ("double_quote", r'"'), ("exponent", r"\d[eE][-+]?\d")]
+
+
+def feature_counts(cases_path, limit=200000):
+    """How many exported cases exercise which syntactic feature (a cheap vacuity indicator, recorded in the evidence)."""
+    import re as _re
+    pats = [(n, _re.compile(p)) for n, p in _FEATURES]
+    cnt = {n: 0 for n, _ in _FEATURES}
+    total = 0
+    with open(cases_path) as f:
+        for line in f:
+            total += 1
+            if total > limit:
+                break
+            m = _re.search(r'"q":\[([0-9,]*)\]', line)
+            if not m or not m.group(1):
+                continue
+            q = "".join(chr(int(x)) for x in m.group(1).split(","))
+            for n, p in pats:
+                if p.search(q):
+                    cnt[n] += 1
+    return {k: v for k, v in cnt.items() if v}
+
+
+def _acc(ev, summary):
+    d = ev.extra.setdefault("per_check_cases", {})
+    for k, v in summary.get("checks", {}).items():
+        d[k] = d.get(k, 0) + v
 
 
 def sval_to_json(v):
@@ -428,7 +463,8 @@ def grammar_stage(ev, prop, mode, checks, tier, seed, timeout=3000):
     ev.traces += summary["cases"]
     ev.evaluations += summary["cases"]
     ev.distinct_nontrivial += summary["distinct"]
-    ev.extra.setdefault("per_check_cases", {}).update(summary.get("checks", {}))
+    _acc(ev, summary)
+    ev.extra.setdefault("feature_counts", {})[f"Grammar[{mode}]"] = feature_counts(cases)
     with open(cases) as f:
         for i, line in enumerate(f):
             if i % max(1, summary["cases"] // 4) == 0 and len(ev.samples) < 8:
@@ -448,7 +484,7 @@ def refstore_stage(ev, prop, tier, seed, timeout=3000):
     ev.traces += summary["cases"]
     ev.evaluations += summary["cases"]
     ev.distinct_nontrivial += summary["nonempty_expect"]
-    ev.extra.setdefault("per_check_cases", {}).update(summary.get("checks", {}))
+    _acc(ev, summary)
     with open(cases) as f:
         for i, line in enumerate(f):
             if i % max(1, summary["cases"] // 4) == 0 and len(ev.samples) < 8:
@@ -579,7 +615,7 @@ def session_stage(ev, prop, tier, seed, timeout=3000):
     ev.traces += summary["cases"]
     ev.evaluations += summary["cases"]
     ev.distinct_nontrivial += summary["distinct"]
-    ev.extra.setdefault("per_check_cases", {}).update(summary.get("checks", {}))
+    _acc(ev, summary)
     with open(cases) as f:
         for i, line in enumerate(f):
             if i % max(1, summary["cases"] // 3) == 0 and len(ev.samples) < 8:
